@@ -118,7 +118,7 @@ class C04(Sim):
     RULE = ("one run = a pool of 1-3 meshes and one simulated file system; saver / loader / cross-reader / cross-writer / querier / config clients under a "
             "seeded scheduler; distinct = distinct (mesh kinds, (operation, format, switches) sequence); non-trivial = >= 1 file saved or planted and >= 1 load or cross-read judged")
     FAULT_KINDS = ["lexical", "config_flip", "reject"]
-    PROBES = ["dialect_face_style", "dialect_vextra", "dialect_ref", "dialect_version", "dialect_nedges", "dialect_normals", "dialect_header", "edge_unmarked", "edited_then_saved", "wild_coordinates", "polygon_to_triangle_format", "attributes_roundtrip", "query_before_save", "resave_after_load", "stl", "hex", "export_edges_off",
+    PROBES = ["dialect_relative_indices", "dialect_polylines", "dialect_count_same_line", "dialect_counts_on_header_line", "dialect_face_style", "dialect_vextra", "dialect_ref", "dialect_version", "dialect_nedges", "dialect_normals", "dialect_header", "edge_unmarked", "edited_then_saved", "wild_coordinates", "polygon_to_triangle_format", "attributes_roundtrip", "query_before_save", "resave_after_load", "stl", "hex", "export_edges_off",
               "crlf", "comments", "exp_floats", "no_final_newline", "cross_read", "cross_write_load", "save_load", "overwrite", "faceless_stl", "ignore_elements", "raw_load"]
     QUICK_RUNS = 2500
     THOROUGH_RUNS = 250000
@@ -345,13 +345,22 @@ class C04(Sim):
                 dia["face_style"] = r.choice(["v/vt", "v//vn", "v/vt/vn"])
             if r.chance(0.3):
                 dia["vextra"] = r.choice(["rgb", "w"])  # `v x y z r g b` (vertex colours) / `v x y z w`
+            if r.chance(0.25):
+                dia["relative_indices"] = True            # negative indices count backwards from the last vertex read
+            if r.chance(0.3):
+                dia["polylines"] = True                   # consecutive edges chained into one `l a b c ...` element
         elif fmt == "mesh":
             if r.chance(0.4):
                 dia["ref"] = r.randint(1, 9)
             if r.chance(0.2):
                 dia["version"] = 1
-        elif fmt == "off" and r.chance(0.3):
-            dia["nedges"] = r.randint(1, 40)
+            if r.chance(0.25):
+                dia["count_same_line"] = True             # `Vertices 12` on one line: Medit files are free-format token streams
+        elif fmt == "off":
+            if r.chance(0.3):
+                dia["nedges"] = r.randint(1, 40)
+            if r.chance(0.25):
+                dia["counts_on_header_line"] = True       # `OFF 8 6 12`
         elif fmt == "stl":
             if r.chance(0.3):
                 dia["normals"] = "zero"
